@@ -48,6 +48,32 @@ def stream_main_column(ctx):
                 ctx.oracle_fail(f"main column {mc} given by name: {why}; plan {PS.clusters_str(plans['name'])}", case, "main-column")
 
 
+        # one strategy object (main column by name) used for a second table that has the named column somewhere else
+        mc = R.randrange(ncols); name = f"c{mc}"; mw = R.choice([6.0, 8.0])
+        strat = DefaultClustering(main_column=name, max_weight=mw)
+        ap = AnonymizationParams(salt=b"12345678")
+        Synthesizer(df, anonymization_params=ap, clustering=strat)
+        order = [c for c in df.columns if c != name]; R.shuffle(order)
+        keep = order[: R.choice([4, 5, len(order)])]
+        pos2 = R.choice([0, len(keep)]) if R.random() < 0.7 else R.randrange(len(keep) + 1)
+        cols2 = keep[:pos2] + [name] + keep[pos2:]
+        df2 = df[cols2]
+        case = {"rows": n, "first_table_columns": list(df.columns), "second_table_columns": cols2, "main": name, "max_weight": mw}
+        try:
+            reused = Synthesizer(df2, anonymization_params=ap, clustering=strat).clusters
+            fresh = Synthesizer(df2, anonymization_params=ap, clustering=DefaultClustering(main_column=name, max_weight=mw)).clusters
+        except Exception as e:
+            ctx.oracle_fail(f"a DefaultClustering(main_column={name!r}) object used for a second table raised {type(e).__name__}: {e}", case, "main-column-reuse")
+        else:
+            case.update(plan_reused=PS.clusters_str(reused), plan_fresh=PS.clusters_str(fresh))
+            S.count((df2.values.tobytes(), name, "reuse"), len(reused.derived_clusters) > 0, case, tag="strategy-reused")
+            why = PS.well_formed(reused, len(cols2), cols2.index(name))
+            if why:
+                ctx.oracle_fail(f"strategy object reused for a second table, main column {name!r} now at {cols2.index(name)}: {why}; plan {PS.clusters_str(reused)}", case, "main-column-reuse")
+            elif PS.clusters_str(reused) != PS.clusters_str(fresh):
+                ctx.oracle_fail(f"plan is not a function of its inputs: a reused strategy object gives {PS.clusters_str(reused)}, a fresh one {PS.clusters_str(fresh)}", case, "main-column-reuse")
+
+
 def run(ctx, built):
     PS.stream_plan(ctx, built, ctx.scale(50, 500))
     stream_main_column(ctx)
